@@ -581,7 +581,7 @@ func runU4(c *core.Ctx) {
 // fires a second time. (The idiom that works copies X first, or stops after the hit.)
 
 func init() {
-	register(&core.Rule{ID: "U5", Min: 1,
+	register(&core.Rule{ID: "U5", Min: 2,
 		Doc: "Self-invalidating search targets in package ast: in a `for` loop, an `if C == X { X = ... }` whose C is a counter advanced by the same loop and whose body neither breaks nor returns is a violation - X is translated again when the counter later reaches the value just stored (logical-to-physical index translation in Node.Move with soft-deleted slots).",
 		Run: runU5})
 }
@@ -642,15 +642,19 @@ func runU5(c *core.Ctx) {
 				}
 				a, aok := ast.Unparen(be.X).(*ast.Ident)
 				b, bok := ast.Unparen(be.Y).(*ast.Ident)
-				if !aok || !bok {
-					continue
-				}
 				var target *ast.Ident
 				switch {
-				case counters[p.ObjectOf(a)] && !counters[p.ObjectOf(b)]:
+				case aok && bok && counters[p.ObjectOf(a)] && !counters[p.ObjectOf(b)]:
 					target = b
-				case counters[p.ObjectOf(b)] && !counters[p.ObjectOf(a)]:
+				case aok && bok && counters[p.ObjectOf(b)] && !counters[p.ObjectOf(a)]:
 					target = a
+				case aok && counters[p.ObjectOf(a)] && p.ConstOf(be.Y) != nil, bok && counters[p.ObjectOf(b)] && p.ConstOf(be.X) != nil:
+					// counter compared with a constant (the countdown idiom): nothing to overwrite
+					found = true
+					k++
+					c.Analysed(fn)
+					c.OK(fn+"/search-target#"+itoa(k), is.Pos(), "counter compared with a constant")
+					continue
 				default:
 					continue
 				}
